@@ -10,11 +10,13 @@
        Reassemble  the blocks, placed by their block index, are the computed array   *)
 EXTENDS ArrayMeta, TraceIO
 
-\* records of the exhaustive basic-index family also carry `want`, the shape NumPy gives
+\* records of the exhaustive families also carry `want`, the shape NumPy gives, and - for
+\* operations with an explicit dtype - `wantdt`, the dtype that was asked for
 Bad(r) == IF r.obs.raised # "" THEN {"Raised"}
           ELSE TrimClauses(MetaClauses(r.obs)
-                           \cup (IF "want" \in DOMAIN r THEN Clause("Shape", r.obs.whole.s = r.want) ELSE {}),
-                           <<"Shape">> \o MetaOrder)
+                           \cup (IF "want" \in DOMAIN r THEN Clause("Shape", r.obs.whole.s = r.want) ELSE {})
+                           \cup (IF "wantdt" \in DOMAIN r THEN Clause("AskedDtype", r.obs.dt = r.wantdt) ELSE {}),
+                           <<"Shape", "AskedDtype">> \o MetaOrder)
 
 Init == TInit
 Next == TNext(Bad)
